@@ -412,6 +412,14 @@ func (e *Engine) setPath(v Val, path []PathEl, nv Val) Val {
 	}
 	av, ok := v.(ArrayV)
 	if !ok {
+		if u, isU := v.(Union); isU {
+			// arrays of different shapes merged under guards: update every alternative
+			nu := Union{alts: make([]Alt, len(u.alts))}
+			for i, a := range u.alts {
+				nu.alts[i] = Alt{a.g, e.setPath(a.v, path, nv)}
+			}
+			return nu
+		}
 		return Poison{fmt.Sprintf("setPath: index into %T", v)}
 	}
 	if p.field == -3 {
